@@ -85,12 +85,22 @@ check("C14", "inputenum", "exploration",
       "Alphabets and bounds as listed in the evidence; not judged: %f, sets mixing classes and ranges, bytes >= 0x80, replacement escapes other than %0-%9 and %%.",
       "small-scope exhaustive input enumeration against a reference matcher ported from lstrlib.c", "DESIGN.md §4 C14")
 
+check("C08", "inputenum", "exploration",
+      "Exhaustive input enumeration: all byte strings up to length 2 (quick) / 3 (thorough); all token sequences up to length 3-5 over a 60/37-token alphabet (joined by a blank and by nothing); every truncation, single-byte deletion and 24 structural-byte substitutions of a program corpus; string/comment openers and escapes; deep-nesting families in a child process. Each input is loaded through LoadString (twice), DoString and parse.Parse+Compile under recover and compared with an independent Lua 5.1 tokenizer/recogniser (Accept/Reject/Unknown). Every accepted corpus program is re-rendered in a layout set (four line-end styles, minimal blanks, tabs, one token per line, semicolons, redundant parentheses, 16 comment/blank forms in every token gap) and must compile to the same code and produce the same trace.",
+      "Alphabets and bounds as listed in the evidence; inputs the reference recogniser cannot decide are not judged; 'never hangs' is decided up to a watchdog with isolated re-run.",
+      "small-scope exhaustive input enumeration against an independent reference recogniser; differential layout rendering", "DESIGN.md §4 C08")
+check("C13", "sched", "model_checking",
+      "Stateless schedule exploration under a hand-written cooperative scheduler: every channel scenario (all pairs and triples of 17 thread bodies: producers, consumers, closers, selects with recv/recv, recv/send, recv/default, send/default cases with and without handlers; capacities 0/1/2) and interference scenarios (states running one shared compiled prototype while another state is created, compiles the same source and is closed; scheduling point at every VM instruction) is re-executed from scratch for every schedule with at most 2 (quick) / 3 (thorough) pre-emptions; the scheduler owns every channel operation through a reflect shim and a shadow model of Go channel semantics decides enabledness, forces select choices, detects deadlock and predicts every observation; refused payload types are checked sequentially. The same bodies run free-running under the Go race detector in a separate binary.",
+      "Pre-emption bound; select against select is not generated; the data-race clause is decided by happens-before detection on the executions of the free-running pass, not by enumeration; memory orderings below sequential consistency are not modelled.",
+      "stateless model checking of the implementation: DFS over schedules with iterative context bounding under a controlled scheduler, shadow channel model as oracle; complementary -race pass", "DESIGN.md §4 C13")
+
 engines = [
  {"name":"histbfs","path":"internal/props (c09.go, c18.go, ...)","kind_free_text":"explicit-state BFS over operation histories; successor = replay on a fresh real object + 1 operation; state key = reference model + white-box layout"},
  {"name":"luaref+gen+glrun","path":"internal/luaref, internal/glrun, internal/props/progrun.go","kind_free_text":"bounded-exhaustive program generators, reference Lua 5.1 interpreter, trace comparison with gopher-lua"},
  {"name":"luaref+histbfs","path":"internal/props/c06.go","kind_free_text":"BFS over histories rendered as programs, executed on gopher-lua and on the reference interpreter"},
  {"name":"bcverify","path":"internal/bcverify, internal/props/c07*.go","kind_free_text":"structural bytecode verifier over exhaustively generated program families"},
  {"name":"faultenum","path":"internal/props/c05.go","kind_free_text":"single/double fault injection at every instruction boundary (step hook) and host call"},
+ {"name":"sched","path":"internal/sched, overlay/rshim, cmd/racepass, internal/props/c13.go","kind_free_text":"cooperative scheduler + DFS with pre-emption bound + shadow channel model; free-running -race pass"},
  {"name":"inputenum","path":"internal/props","kind_free_text":"exhaustive enumeration of inputs over small alphabets against reference definitions"},
 ]
 for e in engines:
